@@ -50,6 +50,8 @@ def rand_numstring(rng):
         s = str(v)
         if v >= 0 and rng.random() < 0.2:
             s = "+" + s
+        if rng.random() < 0.15:
+            s = (s[0] if s[0] in "+-" else "") + "0" * rng.choice([1, 2, 7, 20]) + s.lstrip("+-")
         s = rng.choice(["", "", "", " ", "  ", "\t", "\n ", " \t"]) + s + rng.choice(["", "", "", " ", "x", "abc", ".5", "e3", "\n"])
         return s.encode()
     if r < 0.7:
